@@ -446,12 +446,16 @@ impl<'a> Gen<'a> {
         else if r < 55 { Expr::Safe(self.rng.below(2) as u8) }
         else if r < 80 {
             // a call in return position must terminate: only forward or child calls
-            let c = self.callees(from, true);
+            // not a leaf: `return leaf(acc, sx)` next to `return n` unifies the leaf's result with Int and the typed
+            // fast path then adds string pointers as ints (silently in release builds) -- a defect of another property
+            let c: Vec<(usize, bool)> = self.callees(from, true).into_iter().filter(|&(g, _)| !self.leaf[g]).collect();
             if c.is_empty() { Expr::Atom } else { Expr::Call(self.rng.pick(&c).0) }
         }
         else if r < 85 && self.fails > 0 { self.fails -= 1; Expr::Fail }
-        else if depth < 2 { Expr::Bin(Box::new(self.ret_expr(from, depth + 1)), Box::new(self.ret_expr(from, depth + 1))) }
-        else { Expr::Atom }
+        // two-operand expressions (helper `p2`) are accepted in corpus files but not generated: a helper whose
+        // parameters receive strings at one call site and ints at another makes the typed fast paths misread
+        // values (a defect of another property) and the run silently skips concatenations
+        else { let _ = depth; Expr::Atom }
     }
     fn block(&mut self, from: i64, depth: u32, in_loop: bool, max_len: u64) -> Vec<Stmt> {
         let len = self.rng.below(max_len + 1);
